@@ -1099,6 +1099,22 @@ func (e *CEnv) trCall(x *CExpr) CVal {
 		}
 		body := Implies(And(conds...), Eq(Select(Select(hNow, b), i), Select(Select(hOld, b), i)))
 		return CVal{Forall([]*Term{b, i}, body, Select(Select(hNow, b), i)), boolT}
+	case "fieldsframe": // fieldsframe(T.f, ...): every object that existed at function entry has its entry value of field f
+		var conj []*Term
+		for _, a := range x.Args {
+			name := e.heapNameOf(a)
+			cur, ok := e.st.heaps[name]
+			if !ok {
+				continue // never touched on this path: trivially unchanged
+			}
+			ent, ok := v.entry.heaps[name]
+			if !ok {
+				unsupported("contract: fieldsframe(%s): no entry version of the heap", a)
+			}
+			r := v.fresh("q_fr", SInt)
+			conj = append(conj, Forall([]*Term{r}, Implies(existed(r, v.entry.alloc), Eq(Select(cur, r), Select(ent, r))), Select(cur, r)))
+		}
+		return CVal{And(conj...), boolT}
 	case "existed": // the object existed before the call
 		a := e.tr(x.Args[0])
 		var b *Term
